@@ -94,6 +94,21 @@ def run(ctx):
                         pert = setting[2] * 10 ** rng.choice([3, 4, 5])
                     cases.append(mk_case(rng, p, fam, setting, so, bits, pert))
                 cases.append(mk_case(rng, p, fam, setting, "Wz" if so == "Wx" else "Wx", None, None, npseed=rng.randrange(2 ** 31)))
+        # marginally infeasible targets: sup |suc (p + eps/2 x^d)| just above 1, by less than a factor 1/suc^2 (a retry that rescales
+        # again would slip through), and infeasible degree-1 targets (closed-form shortcuts)
+        for d in ([1, 2, 3, 4, 5, 8] if quick else range(1, 13)):
+            for setting in ((1e-3, 0.99, 1e-6), (1e-2, 0.9, 1e-6), SETTINGS[0]):
+                eps, suc, tol = setting
+                for kpow in (1.5, 2.5):
+                    tn = [float(x) for x in Q.cheb2mono([Fraction(0)] * d + [Fraction(1)])]
+                    base = tn if rng.random() < 0.5 else gen_poly(rng, d, "tight")
+                    sb = Q.sup_estimate(base)
+                    f = (1.0 / suc) ** kpow / sb
+                    pm = [x * f for x in base]
+                    cases.append(mk_case(rng, pm, "marginal", setting, rng.choice(["Wx", "Wz"]), Q.seed_vectors(rng, min(d, 12), 1)[0], None))
+            for c1 in (1.2, -1.05, 3.0):
+                pm = [0.0] * d + [c1]
+                cases.append(mk_case(rng, pm, "infeasible", SETTINGS[0], rng.choice(["Wx", "Wz"]), Q.seed_vectors(rng, min(d, 12), 1)[0], None))
         # integer-valued coefficient vectors (+-T_n, monomials) in every container the entry point accepts
         for n in (range(1, 8) if quick else range(1, 13)):
             tn = [float(x) for x in Q.cheb2mono([Fraction(0)] * n + [Fraction(1)])]
